@@ -470,8 +470,8 @@ func (s *Store[H]) flushLoop(ctx context.Context) {
 		verifhook.At("store.flush.afterAdvanceHead")
 		s.recedeTail(ctx)
 		// don't flush and continue if pending batch is not grown enough,
-		// and Store is not stopping(headers == nil)
-		if s.pending.Len() < s.Params.WriteBatchSize && headers != nil {
+		// and Store is not stopping(headers == nil) or asked to flush(empty headers)
+		if s.pending.Len() < s.Params.WriteBatchSize && len(headers) > 0 {
 			return
 		}
 
